@@ -100,10 +100,14 @@ D24 = S('D24', 'none', [('0', Pm('A')), ('1', Arr(u16, 'N')), ('2', Pm('B'))], k
         cparams=[CP('N', 'usize')], order=['A', 'N', 'B'])
 E10 = E('E10', 'none', [('L', 'tuple', [('0', Pm('A'))]), ('M', 'named', [('k', Arr(u8, 'N')), ('b', Pm('B'))])], tparams=[TP('A'), TP('B', ['Clone'])],
         cparams=[CP('N', 'usize')], order=['A', 'N', 'B'])
+ZE6 = E('ZE6', 'zero', [('A', 'unit', []), ('B', 'tuple', [('0', u8)]), ('C', 'named', [('x', u8), ('y', u8)])], reprs=['C'])
+ZE7 = E('ZE7', 'zero', [('A', 'tuple', [('0', u32)]), ('B', 'unit', [])], reprs=['C', 'align(16)'])
+ZE8 = E('ZE8', 'zero', [('A', 'tuple', [('0', u16)]), ('B', 'unit', [])], reprs=['C', 'u64'])
+Z24 = S('Z24', 'zero', [('a', u32)], reprs=['C', 'align(128)'])
 PRE = S('Pre', 'none', [('pad', STR), ('v', Pm('A'))], tparams=[TP('A')])
 
 DEEP_DEFS = [D1, D2, D3, D4, D5, D6, D7, D8, D9, D10, D11, D12, D13, D14, D15, D16, D17, D18, D19, D20, D21, D22,
-             E1, E2, E3, E4, E5, E6, E7, E8, E9, PRE, Z21, Z22, D23, D24, E10]
+             E1, E2, E3, E4, E5, E6, E7, E8, E9, PRE, Z21, Z22, D23, D24, E10, ZE6, ZE7, ZE8, Z24]
 
 DEFS = ZERO_DEFS + DEEP_DEFS
 
@@ -151,6 +155,12 @@ def user_roots():
     # type parameters declared after / around const parameters, bounded enum parameters
     r += [U(D23, [Vec(i32)], [3]), U(D23, [STR], [0]), U(D24, [Vec(u8), STR], [2]), U(D24, [u8, Vec(U(Z1))], [1]),
           U(E10, [Vec(u64), STR], [2]), U(E10, [STR, Vec(u16)], [0]), Vec(U(D23, [Vec(u16)], [1]))]
+    # enums whose field units are all smaller than the native alignment (tag, repr(align), repr(u64))
+    r += [U(ZE6), Vec(U(ZE6)), U(PRE, [U(ZE6)]), U(ZE7), Vec(U(ZE7)), U(PRE, [Vec(U(ZE7))]), U(ZE8), Vec(U(ZE8)), U(PRE, [U(ZE8)]), Arr(U(ZE6), 3)]
+    # a root type over-aligned beyond the 64 bytes load_mem provides
+    r += [U(Z24), Vec(U(Z24)), U(D2, [U(Z24)]), Opt(U(Z24))]
+    # sequences of deep-copy items that consist of exactly one zero-copy composite
+    r += [Vec(U(D22, [z1])), Arr(U(D22, [Tup(u32, 2)]), 3), Bx(U(D22, [Arr(u16, 2)])), Vec(U(D15, [z2])), Vec(U(E5)), Vec(Opt(z1)), Vec(U(D22, [Vec(z1)]))]
     # alignment units that are not a power of two (size_of of a range of a 12-byte type)
     r += [Vec(Rg('RangeTo', U(Z12))), U(Z22), Vec(U(Z22)), Arr(Rg('RangeToInclusive', U(Z12)), 2)]
     return r
